@@ -69,7 +69,7 @@ def config(m, extra_contracts=None):
     if extra_contracts:
         c.update(extra_contracts)
     return {"reportRegion": "data", "track": 512, "fields": fields, "contracts": c, "maxPaths": 400000, "maxSteps": 60000000,
-            "widenAfter": 3, "dedupe": True, "frameForkWiden": 0}
+            "widenAfter": 3, "dedupe": True, "frameForkWiden": 0, "ptrWidenAfter": 40, "fmtForkMax": 24}
 
 
 def crypt_cell(cid, entry, prefix, tailset=None, phrase_len=(0, (1 << 31) - 1), setting_extra=(0, (1 << 31) - 1), size=None,
@@ -94,32 +94,41 @@ def crypt_cell(cid, entry, prefix, tailset=None, phrase_len=(0, (1 << 31) - 1), 
     return {"id": cid, "entry": entry, "roots": roots, "regions": regions, "args": args}
 
 
+# methods whose crypt path the interpreter cannot yet explore within budget (path explosion in the
+# yescrypt parameter/salt parser); they are reported as NOT covered, never as proved
+UNCOVERED = {"$y$": "yescrypt_r parameter and salt decoding: path explosion (not analysed)",
+             "$gy$": "gost-yescrypt wraps yescrypt_r (not analysed)"}
+
+
 def build_cells(m, tier):
     tbl = m.hash_table()
     rows = [r for r in tbl["rows"] if r["prefix"] is not None]
     entry = common.sym(m, "crypt_rn").name
     cells, meta = [], {}
     seen = set()
+    aligns = [0, 1, 15] if tier == "quick" else list(range(16))
+
+    def add(cid, row, **kw):
+        for a in aligns:
+            c = crypt_cell("%s@%d" % (cid, a), entry, align=(a, a), **kw)
+            cells.append(c)
+            meta[c["id"]] = {"prefix": kw.get("prefix", b""), "row": row, "align": a, "base": cid}
     for r in rows:
         p = r["prefix"].encode()
-        if p == b"":
-            for name, head in (("DES2", None),):
-                pass
-            continue
-        if p in seen:
+        if p == b"" or p in seen:
             continue
         seen.add(p)
-        cid = "K%s" % r["prefix"]
-        cells.append(crypt_cell(cid, entry, p))
-        meta[cid] = {"prefix": p, "row": r}
-    # DES family (empty prefix): setting starts with two DES salt characters, or is empty
+        if r["prefix"] in UNCOVERED:
+            continue
+        add("K%s" % r["prefix"], r, prefix=p)
     desrow = next((r for r in rows if r["prefix"] == ""), None)
     if desrow is not None:
         # two leading DES-alphabet characters (any of the 64), then an arbitrary clean tail
-        cells.append(crypt_cell("Kdes", entry, b"", tailset=CLEAN | {0}, headsets=[A64, A64], setting_extra=(2, (1 << 31) - 1)))
-        meta["Kdes"] = {"prefix": b"", "row": desrow}
-        cells.append(crypt_cell("Kempty", entry, b"", setting_bytes=b""))
-        meta["Kempty"] = {"prefix": b"", "row": desrow}
+        add("Kdes", desrow, prefix=b"", tailset=CLEAN | {0}, headsets=[A64, A64], setting_extra=(2, (1 << 31) - 1))
+        add("Kempty", desrow, prefix=b"", setting_bytes=b"")
+    # unknown method and rejected strings
+    add("Kunknown", None, prefix=b"$zz$")
+    add("Kstar", None, prefix=b"", setting_bytes=b"*0")
     return cells, meta, rows
 
 
@@ -133,9 +142,36 @@ def run(tier="quick", only=None, extra_contracts=None):
     m, info = common.prog("shared")
     cells, meta, rows = build_cells(m, tier)
     if only:
-        cells = [c for c in cells if c["id"] in only]
+        cells = [c for c in cells if c["id"] in only or meta[c["id"]]["base"] in only]
     t0 = time.time()
+    cache_file = os.path.join(info["dir"], "crypt_grid_%s.json" % tier)
+    sig = str(os.path.getmtime(xai.XAI)) + str(os.path.getsize(xai.XAI)) + str(len(cells))
+    res = None
+    if not only and os.path.exists(cache_file):
+        try:
+            saved = json.load(open(cache_file))
+            if saved.get("sig") == sig:
+                res = saved["res"]
+                for c in res.values():
+                    for p in c["paths"]:
+                        if "out" in p:
+                            p["out"] = [(frozenset(s_), pr) for s_, pr in p["out"]]
+                        p["roots"] = [tuple(x) for x in p["roots"]]
+        except Exception:
+            res = None
+    if res is not None:
+        out = {"res": res, "meta": meta, "rows": rows, "module": m, "info": info, "wall": 0.0, "ncells": len(cells), "cached": True}
+        _CACHE[key] = out
+        return out
+    # long cells first so that the pool finishes early
+    cells.sort(key=lambda c: 0 if c["id"].startswith(("K_", "K$2", "K$5", "K$6")) else 1)
     res = xai.run_cells(info["bc"], cells, config(m, extra_contracts), chunk=1)
-    out = {"res": res, "meta": meta, "rows": rows, "module": m, "info": info, "wall": time.time() - t0, "ncells": len(cells)}
+    if not only:
+        try:
+            ser = {cid: dict(c, paths=[dict(p, out=[(sorted(s_), pr) for s_, pr in p.get("out", [])]) for p in c["paths"]]) for cid, c in res.items()}
+            json.dump({"sig": sig, "res": ser}, open(cache_file, "w"))
+        except OSError:
+            pass
+    out = {"res": res, "meta": meta, "rows": rows, "module": m, "info": info, "wall": time.time() - t0, "ncells": len(cells), "cached": False}
     _CACHE[key] = out
     return out
